@@ -76,7 +76,7 @@ def relation_violation(system, x21):
 
 
 def _refusals(ctx):
-    per_system = ctx.pick(28, 3000)
+    per_system = ctx.pick(28, 9000)
     k = 0
     for system in laue.SYSTEMS:
         B = laue.invariant_basis(system)
@@ -202,7 +202,7 @@ def _refusals(ctx):
 
 def _presentation(ctx):
     """Same data, different presentation: column order, letter case, int vs float, explicit defaults, drop tolerance."""
-    per_system = ctx.pick(10, 800)
+    per_system = ctx.pick(10, 2400)
     k = 10 ** 6
     for system in laue.SYSTEMS:
         B = laue.invariant_basis(system)
@@ -329,7 +329,7 @@ def write_relation_file(path, system, rng):
 
 def _environment(ctx):
     """Working-directory independence and relation files given by path (in-process and via the real CLI)."""
-    n_in = ctx.pick(27, 900)
+    n_in = ctx.pick(27, 2700)
     here = os.getcwd()
     tmp = tempfile.mkdtemp(prefix="c09-")
     try:
